@@ -237,6 +237,30 @@ class World:
             return V(int_to_str(v.t), STR)
         raise Unsupported('str() of %r' % (v,))
 
+    def isinstance(self, ex, v, cls, e):
+        classes = cls if isinstance(cls, tuple) else (cls,)
+        res = False
+        for c in classes:
+            if c is BUILTINS['str']:
+                res = res or isinstance(v, str) or (isinstance(v, V) and v.ty in (ATOM, STR))
+            elif c is BUILTINS['int']:
+                res = res or (isinstance(v, int) and not isinstance(v, bool)) or (isinstance(v, V) and v.ty == INT)
+            elif c is BUILTINS['list']:
+                res = res or isinstance(v, list) or (isinstance(v, C) and (isinstance(v.ty, SeqOf) or getattr(v.ty, 'listlike', False)))
+            elif c is BUILTINS['bytes']:
+                res = res or isinstance(v, bytes) or (isinstance(v, V) and v.ty == BYTES)
+            else:
+                r = self.isinstance_user(ex, v, c, e)
+                if r is None:
+                    raise Unsupported('isinstance(%r, %r)' % (v, c))
+                if not isinstance(r, bool):
+                    return r
+                res = res or r
+        return res
+
+    def isinstance_user(self, ex, v, c, e):
+        return None
+
     def with_enter(self, ex, item, line):
         raise Unsupported('with statement')
 
